@@ -154,6 +154,10 @@ fn parse_participating_keys(keys: &SExpr, s: &ParserState) -> Result<Vec<u16>> {
         bail_expr!(keys, "The minimum number of participating chord keys is 2");
     }
     participants.sort();
+    if participants.windows(2).any(|w| w[0] == w[1]) {
+        // The run-time sizes its bookkeeping by the number of distinct keys that can be held.
+        bail_expr!(keys, "A key is listed more than once in the chord's keys");
+    }
     Ok(participants)
 }
 
